@@ -316,6 +316,39 @@ theorem model_ties :
     ((Generated.LocksExporter.fieldCalls.filter (fun c => c.1 == "createAndSendIPFIXMsg" && c.2.2.1 == "Write")).length = 1) := by
   decide
 
+/-- the refresh pass of the event model retransmits the templates that are in the template map AT THAT PASS
+    (`Life.buildAll` over the current map). In the code that is so because `sendRefreshedTemplates` reads
+    nothing of the exporting process but `templatesMap`, under `templateMutex`, and writes nothing: no cached
+    copy of an earlier pass, no "changed since the last pass" flag whose update could be lost between the
+    application's `updateTemplate` and the refresher (a window of microseconds that no harness schedule hits). -/
+theorem tie_refresh_reads_only_the_template_map :
+    (Generated.LocksExporter.accesses.filter (·.unit == "sendRefreshedTemplates")).all
+        (fun a => a.write == false &&
+          ((a.field == "templatesMap" && a.how == "mutex" && a.lock == "templateMutex") ||
+           (a.field == "templateMutex" && a.how == "sync"))) = true ∧
+    (Generated.LocksExporter.accesses.any
+        (fun a => a.unit == "sendRefreshedTemplates" && a.field == "templatesMap")) = true := by decide
+
+/-- the connection probe of the checker goroutine cannot disturb a write of the application: the only deadline
+    the library ever arms on the connection is a READ deadline, in `checkConnToCollector` (a write deadline, or
+    `SetDeadline`, armed by the probe would cut a `Write` of the application that is blocked on a slow collector
+    short and leave a message prefix on the stream - the event model has no such step) -/
+theorem tie_probe_arms_read_deadline_only :
+    ((Generated.LocksExporter.fieldCalls.filter
+        (fun c => c.2.2.1 == "SetDeadline" || c.2.2.1 == "SetReadDeadline" || c.2.2.1 == "SetWriteDeadline")).map
+        (fun c => (c.1, c.2.1, c.2.2.1))) = [("checkConnToCollector", "connToCollector", "SetReadDeadline")] := by decide
+
+/-- the sequence counter is shared by the application's sends and the refresher's (both go through
+    `createAndSendIPFIXMsg`): it advances by ONE atomic read-modify-write (`atomic.AddUint32`) and is otherwise
+    only loaded - there is no load ... store pair between which a concurrent send's records could be lost. This
+    is what lets the event model (and C08's `seq_in_every_message`) treat "stamp and advance" as one step of
+    whichever goroutine sends. -/
+theorem tie_sequence_counter_advances_atomically :
+    ((Generated.LocksExporter.atomicOps.filter (fun c => c.2.1 == "seqNumber")).map (fun c => (c.1, c.2.2.1))) =
+      [("createAndSendIPFIXMsg", "LoadUint32"), ("createAndSendIPFIXMsg", "AddUint32")] ∧
+    (Generated.LocksExporter.accesses.filter (fun a => a.field == "seqNumber" && a.how != "atomic")).map (·.unit) =
+      ["InitExportingProcess:pre"] := by decide
+
 /-! ## Non-vacuity -/
 
 def ieU8 : IE := ⟨"protocolIdentifier", 4, .unsigned8, 0, 1⟩
